@@ -86,6 +86,8 @@ type Catalogue struct {
 	ifaceImpl map[reflect.Type][]int // interface type -> indices into RegTypes
 	Skipped   map[string]string      // name -> reason
 	convRead  []convRef              // nasConvert helpers usable on shared IEs
+	autoRT    map[string][2]string   // type key -> marshal / unmarshal method names
+	Cost      []int                  // yields of one sequential execution per catalogue entry (from the probe step; nil if not probed)
 }
 
 type methodRef struct {
@@ -102,7 +104,7 @@ type convRef struct {
 var Cat *Catalogue
 
 // Families of the private mode, in catalogue order.
-var PrivateFams = []string{"decode", "encode", "reencode", "decodebad", "sec", "fn", "method", "accessors", "roundtrip", "hist"}
+var PrivateFams = []string{"decode", "encode", "reencode", "redecode", "decodebad", "sec", "fn", "method", "accessors", "roundtrip", "hist"}
 
 func BuildCatalogue() *Catalogue {
 	c := &Catalogue{
@@ -128,6 +130,7 @@ func BuildCatalogue() *Catalogue {
 		if c.Samples[i].OK {
 			add("encode", c.Samples[i].Name)
 			add("reencode", c.Samples[i].Name)
+			add("redecode", c.Samples[i].Name)
 		}
 	}
 	for _, n := range secNames {
@@ -182,6 +185,31 @@ func BuildCatalogue() *Catalogue {
 	for _, n := range roundtripNames {
 		add("roundtrip", n)
 	}
+	// every exported type that has a marshal / unmarshal pair gets a round-trip entry
+	// (follows the tree: a codec added by a change is exercised without touching /verif)
+	c.autoRT = map[string][2]string{}
+	for i := range RegTypes {
+		t := &RegTypes[i]
+		if t.Pkg == "logger" {
+			continue
+		}
+		pt := reflect.PtrTo(t.T)
+		for _, pair := range [][2]string{{"MarshalBinary", "UnmarshalBinary"}, {"Marshal", "UnMarshal"}, {"Marshal", "Unmarshal"}} {
+			mm, ok1 := pt.MethodByName(pair[0])
+			um, ok2 := pt.MethodByName(pair[1])
+			if !ok1 || !ok2 || mm.Type.NumIn() != 1 || mm.Type.NumOut() < 1 || mm.Type.Out(0) != byteSliceType ||
+				um.Type.NumIn() != 2 || um.Type.In(1) != byteSliceType {
+				continue
+			}
+			key := t.Pkg + "." + t.Name
+			if _, declared := RegMethodParams[key+"."+pair[0]]; !declared {
+				continue
+			}
+			c.autoRT[key] = pair
+			add("roundtrip", key)
+			break
+		}
+	}
 	add("hist", "count")
 	add("hist", "idgen")
 	for _, fam := range PrivateFams {
@@ -209,6 +237,11 @@ func BuildCatalogue() *Catalogue {
 
 // ProbeFile: if set before InitHarness, the sample table is loaded from it.
 var ProbeFile string
+
+type probeFile struct {
+	Samples []probeSample `json:"samples"`
+	Cost    []int         `json:"cost"`
+}
 
 type probeSample struct {
 	Name string `json:"name"`
@@ -256,10 +289,11 @@ func (c *Catalogue) probeSamples() {
 
 // WriteProbe stores the probed sample table.
 func (c *Catalogue) WriteProbe(path string) error {
-	var out []probeSample
+	var out probeFile
 	for _, s := range c.Samples {
-		out = append(out, probeSample{s.Name, hex.EncodeToString(s.Data), s.OK})
+		out.Samples = append(out.Samples, probeSample{s.Name, hex.EncodeToString(s.Data), s.OK})
 	}
+	out.Cost = c.Cost
 	b, err := json.Marshal(out)
 	if err != nil {
 		return err
@@ -272,11 +306,12 @@ func (c *Catalogue) loadProbe(path string) error {
 	if err != nil {
 		return err
 	}
-	var in []probeSample
-	if err := json.Unmarshal(b, &in); err != nil {
+	var pf probeFile
+	if err := json.Unmarshal(b, &pf); err != nil {
 		return err
 	}
-	for i, s := range in {
+	c.Cost = pf.Cost
+	for i, s := range pf.Samples {
 		d, err := hex.DecodeString(s.Data)
 		if err != nil {
 			return err
@@ -521,6 +556,20 @@ func mutateIE(v reflect.Value, r *Rng) {
 			reflect.Copy(nv, reflect.ValueOf(sb))
 			f.Set(nv)
 			lf.SetUint(uint64(len(sb)))
+		} else if n > 0 && lf.IsValid() && lf.CanSet() && r.Chance(35) {
+			// another length for a variable-length IE (variantOf keeps the variant only if
+			// the message still decodes, i.e. the length is within the IE's bounds)
+			k := 1 + r.Intn(48)
+			if r.Bool() {
+				k = 1 + r.Intn(n+8)
+			}
+			if lf.Kind() == reflect.Uint8 && k > 255 {
+				k = 255
+			}
+			nv := reflect.MakeSlice(f.Type(), k, k)
+			reflect.Copy(nv, reflect.ValueOf(r.Bytes(k)))
+			f.Set(nv)
+			lf.SetUint(uint64(k))
 		} else if n > 0 {
 			nb := r.Bytes(n)
 			reflect.Copy(f, reflect.ValueOf(nb))
@@ -621,7 +670,7 @@ func (c *Catalogue) Build(spec OpSpec, env *Env, task int) *Inst {
 	switch spec.Fam {
 	case "noop":
 		in.Do = func() []interface{} { return nil }
-	case "decode", "decodebad", "encode", "reencode":
+	case "decode", "decodebad", "encode", "reencode", "redecode":
 		c.buildCodec(in, r)
 	case "sec":
 		c.buildSec(in, r)
@@ -651,7 +700,7 @@ func (c *Catalogue) Build(spec OpSpec, env *Env, task int) *Inst {
 			return c.missing(in)
 		}
 		mt, _ := recv.Type().MethodByName(mr.Method)
-		args, ok := SynthArgs(r, mt.Type, mr.Params, 1, mr.Method)
+		args, ok := SynthArgs(r, mt.Type, mr.Params, 1, mr.T.Name+"."+mr.Method)
 		if !ok {
 			return c.missing(in)
 		}
@@ -820,6 +869,21 @@ func (c *Catalogue) buildCodec(in *Inst, r *Rng) {
 				return []interface{}{buf.Bytes(), err}
 			}
 		}
+	case "redecode":
+		// a worker that keeps ONE message value and decodes packet after packet into it
+		// (IEs embedded by value keep their storage across decodes)
+		second := variantOf(s.Data, r)
+		third := variantOf(s.Data, r)
+		in.Args = []interface{}{&data, &second, &third}
+		in.Do = func() []interface{} {
+			m := nas.NewMessage()
+			e1 := m.PlainNasDecode(&data)
+			b1, _ := m.PlainNasEncode()
+			e2 := m.PlainNasDecode(&second)
+			b2, _ := m.PlainNasEncode()
+			e3 := m.PlainNasDecode(&third)
+			return []interface{}{e1, b1, e2, b2, e3, m}
+		}
 	case "reencode":
 		in.Args = []interface{}{&data}
 		in.Do = func() []interface{} {
@@ -961,7 +1025,7 @@ func (c *Catalogue) buildAccessors(in *Inst, t *RegType, r *Rng) {
 		m    reflect.Value
 		args []reflect.Value
 	}
-	var setters, getters []call
+	var setters, setters2, getters []call
 	for m := 0; m < pt.NumMethod(); m++ {
 		mm := pt.Method(m)
 		key := t.Pkg + "." + t.Name + "." + mm.Name
@@ -977,6 +1041,13 @@ func (c *Catalogue) buildAccessors(in *Inst, t *RegType, r *Rng) {
 				args, ok := SynthArgs(r, mm.Type, params, 1, mm.Name)
 				if ok {
 					setters = append(setters, call{m: recv.Method(m), args: args})
+				}
+			}
+			if r.Chance(50) {
+				// a second round with other arguments: set short then long, long then short
+				args, ok := SynthArgs(r, mm.Type, params, 1, mm.Name)
+				if ok {
+					setters2 = append(setters2, call{m: recv.Method(m), args: args})
 				}
 			}
 		}
@@ -1002,20 +1073,25 @@ func (c *Catalogue) buildAccessors(in *Inst, t *RegType, r *Rng) {
 			}
 		}
 		sweep()
-		for _, s := range setters {
-			func() {
-				defer func() {
-					if p := recover(); p != nil {
-						if vsimrt.IsAbort(p) || vsimrt.IsRunaway(p) {
-							panic(p)
+		for round, list := range [][]call{setters, setters2} {
+			if round == 1 && len(list) == 0 {
+				break
+			}
+			for _, s := range list {
+				func() {
+					defer func() {
+						if p := recover(); p != nil {
+							if vsimrt.IsAbort(p) || vsimrt.IsRunaway(p) {
+								panic(p)
+							}
+							out = append(out, fmt.Sprint("panic:", p))
 						}
-						out = append(out, fmt.Sprint("panic:", p))
-					}
+					}()
+					s.m.Call(s.args)
 				}()
-				s.m.Call(s.args)
-			}()
+			}
+			sweep()
 		}
-		sweep()
 		return out
 	}
 }
@@ -1054,6 +1130,10 @@ func (c *Catalogue) buildRoundtrip(in *Inst, r *Rng) {
 			out = append(out, back.Interface())
 			return out
 		}
+	}
+	if pair, ok := c.autoRT[in.Spec.Name]; ok {
+		marshalUnmarshal(in.Spec.Name, pair[0], pair[1])
+		return
 	}
 	switch in.Spec.Name {
 	case "qosrules":
